@@ -227,3 +227,86 @@ def nodes(e):
     yield e
     for k in kids_of(e):
         yield from nodes(k)
+
+
+# ------------------------------------------------------------------------------------------ operands that are lazy RESULTS
+# Composite operands whose _diagonal / _getitem / _transpose shortcuts are read by the structured rewrites of OTHER classes
+# (Diag-family _mul_matrix, Kronecker _diagonal, add_jitter, ...).  name -> (expression, is positive definite)
+
+COMPOSITES = ["MatmulLL", "MatmulLU", "MatmulUL", "MatmulUU", "MatmulLLt", "MatmulLtL", "MatmulDiagDense", "MatmulDenseDiag",
+              "SumDiagToeplitz", "SumMatmulLLtDiag", "KronMatmulLLtDense", "KronDiagDense", "AddedDiagMatmulLLt", "CMulMatmulLU",
+              "RootOfTriangular", "MatmulKronDiag", "SumKronOfMatmul", "CholOfMatmulFactor"]
+
+
+def _tri_pair_t(rng, batch, n):
+    """(L, L^T) as Triangular expressions (lower, upper)"""
+    L = _tri(rng, batch, n, False)
+    Lt = {"cls": "Triangular", "t": ob.from_torch(ob.tt(L["t"]).mT.contiguous()), "upper": True}
+    return L, Lt
+
+
+def composite(rng, name, batch=(), n=4):
+    batch = list(batch)
+    h = max(1, n // 2)
+    mm = lambda l, r: {"cls": "Matmul", "l": l, "r": r}
+    if name in ("MatmulLL", "MatmulLU", "MatmulUL", "MatmulUU"):
+        return mm(_tri(rng, batch, n, name[6] == "U"), _tri(rng, batch, n, name[7] == "U")), False
+    if name == "MatmulLLt":
+        L, Lt = _tri_pair_t(rng, batch, n)
+        return mm(L, Lt), True
+    if name == "MatmulLtL":
+        L, Lt = _tri_pair_t(rng, batch, n)
+        return mm(Lt, L), True
+    if name == "MatmulDiagDense":
+        return mm(_diag(rng, batch, n), _dense(rng, batch, n, n, -2, 2)), False
+    if name == "MatmulDenseDiag":
+        return mm(_dense(rng, batch, n, n, -2, 2), _diag(rng, batch, n)), False
+    if name == "SumDiagToeplitz":
+        return {"cls": "Sum", "ops": [_diag(rng, batch, n, pos=True), _toeplitz(rng, batch, n, True)]}, True
+    if name == "SumMatmulLLtDiag":
+        L, Lt = _tri_pair_t(rng, batch, n)
+        return {"cls": "Sum", "ops": [mm(L, Lt), _diag(rng, batch, n, pos=True)]}, True
+    if name == "KronMatmulLLtDense":
+        L, Lt = _tri_pair_t(rng, batch, 2)
+        return {"cls": "Kron", "ops": [mm(L, Lt), _psd_dense(rng, batch, h)]}, True
+    if name == "KronDiagDense":
+        return {"cls": "Kron", "ops": [_diag(rng, batch, 2, pos=True), _psd_dense(rng, batch, h)]}, True
+    if name == "AddedDiagMatmulLLt":          # what add_jitter / add_diagonal return
+        L, Lt = _tri_pair_t(rng, batch, n)
+        return {"cls": "AddedDiag", "base": mm(L, Lt), "diag": _cdiag(rng, batch, n, pos=True)}, True
+    if name == "CMulMatmulLU":
+        return {"cls": "ConstantMul", "base": mm(_tri(rng, batch, n, False), _tri(rng, batch, n, True)),
+                "c": ob.rand_t(rng, [], -3, 3, nonzero=True)}, False
+    if name == "RootOfTriangular":
+        return {"cls": "Root", "root": _tri(rng, batch, n, False)}, True
+    if name == "MatmulKronDiag":
+        return mm({"cls": "Kron", "ops": [_dense(rng, batch, 2, 2), _dense(rng, batch, h, h)]}, _diag(rng, batch, n)), False
+    if name == "SumKronOfMatmul":
+        L, Lt = _tri_pair_t(rng, batch, 2)
+        k1 = {"cls": "Kron", "ops": [mm(L, Lt), _psd_dense(rng, batch, h)]}
+        k2 = {"cls": "Kron", "ops": [_psd_dense(rng, batch, 2), _psd_dense(rng, batch, h)]}
+        return {"cls": "SumKron", "a": k1, "b": k2}, True
+    if name == "CholOfMatmulFactor":         # L L^T written with the Cholesky class next to the lazy product of the same factor
+        L, Lt = _tri_pair_t(rng, batch, n)
+        return {"cls": "Sum", "ops": [{"cls": "Chol", "t": L["t"], "upper": False}, mm(L, Lt)]}, True
+    raise ValueError(name)
+
+
+# concatenation along a BATCH dimension (3 batch dimensions, unequal sizes): CatB<d>e = equal pieces, CatB<d>u = unequal pieces
+CATB = ["CatB0e", "CatB0u", "CatB1e", "CatB1u", "CatB2e", "CatB2u"]
+CATB_BATCH = [2, 3, 4]
+
+
+def catb(rng, name, n=4):
+    d = int(name[4])
+    equal = name[5] == "e"
+    full = list(CATB_BATCH)
+    k = full[d]
+    sizes = [k, k] if equal else [k, 1]
+    kinds = [_dense, lambda r, b, m, nn: _diag(r, b, m), lambda r, b, m, nn: _toeplitz(r, b, m, False)]
+    ops = []
+    for i, s in enumerate(sizes):
+        b = list(full)
+        b[d] = s
+        ops.append(kinds[(d + i) % len(kinds)](rng, b, n, n))
+    return {"cls": "Cat", "ops": ops, "dim": d}
